@@ -9,7 +9,7 @@ from ..findings import still_fails
 ID = "C05"
 LEAN_MODULES = ["PycModel.Properties.C05"]
 NAMESPACES = ["PycModel.C05", "PycModel.SwitchRefine", "PycModel.StmtSkel", "PycModel.Tables", "PycModel.TransUnit"]
-REQUIRED_THEOREMS = ["PycModel.C05.block_items_in_source_order", "PycModel.C05.block_items_concat", "PycModel.TransUnit.compound_ok", "PycModel.TransUnit.items_loop", "PycModel.C05.regroup_no_labels", "PycModel.C05.regroupGo_prefix",
+REQUIRED_THEOREMS = ["PycModel.C05.block_items_in_source_order", "PycModel.C05.block_items_concat", "PycModel.TransUnit.compound_ok", "PycModel.StmtSkel.slok_consD", "PycModel.StmtSkel.sok_forD", "PycModel.StmtSkel.all_sl", "PycModel.C05.regroup_no_labels", "PycModel.C05.regroupGo_prefix",
                      "PycModel.C05.fixSwitchLoop_eq_regroup", "PycModel.C05.fixSwitchCases_eq_spec",
                      "PycModel.C05.fixSwitchCases_empty_block", "PycModel.C05.labeled_statement_shape",
                      "PycModel.SwitchRefine.peel_extract", "PycModel.SwitchRefine.loop_refines",
